@@ -32,6 +32,8 @@ pub struct Ctx {
     /// scale factor on case counts (VERIF_SCALE, default 1.0) for smoke runs
     pub scale: f64,
     pub verif_dir: String,
+    /// Some((k, n)): this process is shard k of n and runs only cases i with i % n == k
+    pub shard: Option<(u64, u64)>,
     /// where evidence/ and replays/ are written (VERIF_OUT, default = verif_dir)
     pub out_dir: String,
 }
@@ -73,6 +75,7 @@ pub struct Local {
     pub samples: Vec<(u64, Value)>,
     pub violations: Vec<Violation>,
     pub violation_count: u64,
+    pub internal_errors: Vec<String>,
     sig_seen: BTreeMap<String, u32>,
 }
 
@@ -122,11 +125,25 @@ impl Local {
         self.samples.extend(o.samples);
         self.violation_count += o.violation_count;
         self.violations.extend(o.violations);
+        self.internal_errors.extend(o.internal_errors);
     }
 }
 
 /// Run `n` cases on `ctx.threads` worker threads; case `i` must be a pure function of
 /// (ctx.seed, i). Work is dealt in small chunks from an atomic counter.
+/// Run one case; a panic of the harness's own code (never expected) must not take the whole
+/// run down: it is recorded and turns the verdict into INCONCLUSIVE.
+fn guarded_case<F: Fn(u64, &mut Local)>(f: &F, case: u64, l: &mut Local) {
+    let r = std::panic::catch_unwind(std::panic::AssertUnwindSafe(|| f(case, l)));
+    if r.is_err() {
+        let site = crate::api::last_panic_site();
+        l.count("harness.internal-panic");
+        if l.internal_errors.len() < 5 {
+            l.internal_errors.push(format!("case {case}: harness code panicked at {site}"));
+        }
+    }
+}
+
 pub fn run_cases<F>(ctx: &Ctx, n: u64, f: F) -> Local
 where
     F: Fn(u64, &mut Local) + Sync,
@@ -134,7 +151,7 @@ where
     if let Some(c) = ctx.only_case {
         let mut l = Local::default();
         crate::api::begin_case();
-        f(c, &mut l);
+        guarded_case(&f, c, &mut l);
         for (k, v) in crate::api::take_counts() {
             l.add(&k, v);
         }
@@ -153,8 +170,13 @@ where
                         break;
                     }
                     for case in start..(start + chunk).min(n) {
+                        if let Some((k, m)) = ctx.shard {
+                            if case % m != k {
+                                continue;
+                            }
+                        }
                         crate::api::begin_case();
-                        f(case, &mut l);
+                        guarded_case(&f, case, &mut l);
                     }
                 }
                 for (k, v) in crate::api::take_counts() {
@@ -169,6 +191,126 @@ where
     l.samples.truncate(4);
     l.violations.sort_by_key(|v| v.case);
     l
+}
+
+impl Local {
+    pub fn to_json(&self) -> Value {
+        json!({
+            "evals": self.evals,
+            "fingerprints": self.fingerprints.iter().collect::<Vec<_>>(),
+            "counters": self.counters,
+            "samples": self.samples.iter().map(|(c, v)| json!([c, v])).collect::<Vec<_>>(),
+            "violation_count": self.violation_count,
+            "internal_errors": self.internal_errors,
+            "violations": self.violations.iter().map(|v| json!({"subcheck": v.subcheck, "class": v.class, "observed": v.observed, "case": v.case, "detail": v.detail})).collect::<Vec<_>>(),
+        })
+    }
+    pub fn from_json(v: &Value) -> Local {
+        let mut l = Local::default();
+        l.evals = v["evals"].as_u64().unwrap_or(0);
+        for f in v["fingerprints"].as_array().cloned().unwrap_or_default() {
+            if let Some(x) = f.as_u64() {
+                l.fingerprints.insert(x);
+            }
+        }
+        if let Some(c) = v["counters"].as_object() {
+            for (k, x) in c {
+                l.counters.insert(k.clone(), x.as_u64().unwrap_or(0));
+            }
+        }
+        for s in v["samples"].as_array().cloned().unwrap_or_default() {
+            l.samples.push((s[0].as_u64().unwrap_or(0), s[1].clone()));
+        }
+        l.violation_count = v["violation_count"].as_u64().unwrap_or(0);
+        for e in v["internal_errors"].as_array().cloned().unwrap_or_default() {
+            l.internal_errors.push(e.as_str().unwrap_or("").to_string());
+        }
+        for x in v["violations"].as_array().cloned().unwrap_or_default() {
+            l.violations.push(Violation {
+                subcheck: x["subcheck"].as_str().unwrap_or("").into(),
+                class: x["class"].as_str().unwrap_or("").into(),
+                observed: x["observed"].as_str().unwrap_or("").into(),
+                case: x["case"].as_u64().unwrap_or(0),
+                detail: x["detail"].clone(),
+            });
+        }
+        l
+    }
+    pub fn absorb(&mut self, o: Local) {
+        self.merge(o);
+    }
+}
+
+/// How a shard (child process) ended.
+#[derive(Debug, Clone)]
+pub struct ShardEnd {
+    pub shard: u64,
+    pub ok: bool,
+    /// exit code, or None if killed by a signal
+    pub code: Option<i32>,
+    pub signal: Option<i32>,
+    pub stderr_tail: String,
+    pub log_path: String,
+}
+
+/// Run this very monitor in `nshards` child processes (each with `threads` worker threads) and
+/// merge their partial results. Children get VERIF_SHARD=k/n and VERIF_PARTIAL=<file>; extra
+/// environment (sanitizer options, LD_PRELOAD, another executable) can be supplied.
+pub fn run_sharded(ctx: &Ctx, nshards: u64, threads: usize, exe: Option<&str>, extra_env: &[(String, String)], tag: &str) -> (Local, Vec<ShardEnd>) {
+    use std::os::unix::process::ExitStatusExt;
+    let exe = exe.map(String::from).unwrap_or_else(|| std::env::current_exe().unwrap().to_string_lossy().to_string());
+    let dir = format!("{}/.partials", ctx.out_dir);
+    let _ = std::fs::create_dir_all(&dir);
+    let mut children = vec![];
+    for k in 0..nshards {
+        let partial = format!("{dir}/{}-{tag}-{}-{k}.json", ctx.property, std::process::id());
+        let wal = format!("{dir}/{}-{tag}-{}-{k}.wal", ctx.property, std::process::id());
+        let _ = std::fs::remove_file(&partial);
+        let mut cmd = std::process::Command::new(&exe);
+        cmd.args([ctx.property.as_str(), ctx.tier.name()])
+            .env("VERIF_SEED", ctx.seed.to_string())
+            .env("VERIF_SHARD", format!("{k}/{nshards}"))
+            .env("VERIF_THREADS", threads.to_string())
+            .env("VERIF_SCALE", ctx.scale.to_string())
+            .env("VERIF_PARTIAL", &partial)
+            .env("VERIF_WAL", &wal)
+            .env("VERIF_LEG", tag)
+            .stdout(std::process::Stdio::null())
+            .stderr(std::process::Stdio::piped());
+        for (a, b) in extra_env {
+            cmd.env(a, b);
+        }
+        match cmd.spawn() {
+            Ok(c) => children.push((k, partial, wal, Some(c))),
+            Err(_) => children.push((k, partial, wal, None)),
+        }
+    }
+    let mut merged = Local::default();
+    let mut ends = vec![];
+    for (k, partial, wal, child) in children {
+        let (code, signal, tail) = match child {
+            None => (Some(127), None, "spawn failed".to_string()),
+            Some(c) => match c.wait_with_output() {
+                Ok(o) => {
+                    let t = String::from_utf8_lossy(&o.stderr);
+                    let tail: String = t.chars().rev().take(3000).collect::<String>().chars().rev().collect();
+                    (o.status.code(), o.status.signal(), tail)
+                }
+                Err(e) => (Some(126), None, e.to_string()),
+            },
+        };
+        let mut ok = code == Some(0);
+        match std::fs::read_to_string(&partial).ok().and_then(|t| serde_json::from_str::<Value>(&t).ok()) {
+            Some(v) => merged.merge(Local::from_json(&v)),
+            None => ok = false,
+        }
+        let _ = std::fs::remove_file(&partial);
+        ends.push(ShardEnd { shard: k, ok, code, signal, stderr_tail: tail, log_path: wal });
+    }
+    merged.samples.sort_by_key(|(c, _)| *c);
+    merged.samples.truncate(4);
+    merged.violations.sort_by_key(|v| v.case);
+    (merged, ends)
 }
 
 pub struct Report {
@@ -251,6 +393,9 @@ pub fn finish(ctx: &Ctx, mut rep: Report, t0: Instant) -> i32 {
         println!("KNOWN-FINDING: property={id} {what} [{sig}]");
     }
 
+    for e in rep.local.internal_errors.iter().take(5) {
+        rep.inconclusive.push(format!("harness error: {e}"));
+    }
     // floors
     for (k, min) in &rep.floors {
         let got = rep.local.counters.get(k).copied().unwrap_or(0);
